@@ -140,8 +140,8 @@ PROPS["C13"] = {
     "level_text": "Stateful property test over template-edit words on a small alphabet (A->B->A, A->B->C, edits during a canary) with all reconcilers interleaved: no replica set is created while one with the same template hash exists; a created set's template, hash annotation and templateGeneration equal spec.template and its MD5; every created pod carries its creator's hash; a replica-set Delete never hits the set that is active or matches spec.template after the reconcile, only sets whose status as read is all zero, and a failed canary not before two minutes; the PodTemplate equals spec.template and its hash after its reconcile. A scripted revert family (template X, Y, X again while X's set is held by a finalizer; one replica-set creation optionally refused or stored-but-answered-with-an-error) checks that a terminating or just-created set is re-used and never doubled. A third family changes the template and lets one of the following EDS status writes fail (refused with a generic error or Conflict, or stored and answered with an error): the set the stored status names as active is never collected.",
     "level_note": SM_NOTE,
     "technique": "stateful property-based testing (rapid) with per-step invariants; template hash recomputed independently (MD5 of the JSON rendering)",
-    "quick": {"jobs": [rapid_job("sm", "^TestC13SM$", 750, shards=4), rapid_job("revert", "^TestC13Revert$", 150, shards=2), rapid_job("status-write-faults", "^TestC13StatusWriteFaults$", 600)]},
-    "thorough": {"jobs": [rapid_job("sm", "^TestC13SM$", 4000, shards=14, timeout="50m"), rapid_job("revert", "^TestC13Revert$", 2000, shards=4, timeout="50m"), rapid_job("status-write-faults", "^TestC13StatusWriteFaults$", 8000, shards=2)]},
+    "quick": {"jobs": [rapid_job("sm", "^TestC13SM$", 750, shards=4), rapid_job("revert", "^TestC13Revert$", 150, shards=2), rapid_job("status-write-faults", "^TestC13StatusWriteFaults$", 600), rapid_job("queue", "^TestC13Queue$", 200)]},
+    "thorough": {"jobs": [rapid_job("sm", "^TestC13SM$", 4000, shards=14, timeout="50m"), rapid_job("revert", "^TestC13Revert$", 2000, shards=4, timeout="50m"), rapid_job("status-write-faults", "^TestC13StatusWriteFaults$", 8000, shards=2), rapid_job("queue", "^TestC13Queue$", 3000, shards=4, timeout="50m")]},
 }
 
 PROPS["C14"] = {
@@ -150,8 +150,8 @@ PROPS["C14"] = {
     "level_text": "Stateful property test: after every successful EDS reconcile the stored status is compared with a reference implementation of the documented status function applied to the replica-set statuses that reconcile read (sums, desired/upToDate from active and canary set, state, reason, Canary-Paused/Canary-Failed conditions); after every active/canary sync 0<=available<=ready<=current<=desired; after stabilisation the counters are compared with the pods and nodes that exist. A function-level test feeds the status function alone with 1-3 replica sets carrying generated counters (incl. leftover sets with non-zero counters and sets that are being deleted under a finalizer while they still report pods), conditions, roles and annotation settings. A third job runs the reconcilers event-driven (watch wiring, Requeue/RequeueAfter/error handling and the no-event-for-a-no-op-write rule modelled after controllers/*_controller.go and the controller-runtime worker, virtual clock): disturbances are placed around the active replica set's next sync time and after 2 x reconcileFrequency + 2s of quiet the counters must equal what exists; the recorded sub-second-frequency finding has its own deterministic reproducer.",
     "level_note": SM_NOTE + " The event-driven scheduler is a hand-written model of controller-runtime (no informer lag, no 10-hour resync); it draws reconcile frequencies of one second or more (below that the recorded finding F21 applies).",
     "technique": "stateful property-based testing (rapid) against a reference status function + quiescent-state oracle + function-level property test of the status function",
-    "quick": {"jobs": [rapid_job("sm", "^TestC14SM$", 500, shards=4), rapid_job("function", "^TestC14StatusFunction$", 3000, shards=2), rapid_job("queue", "^TestC14Queue$", 400, shards=2), rapid_job("known", "^TestC14Known", 1)]},
-    "thorough": {"jobs": [rapid_job("sm", "^TestC14SM$", 2500, shards=12, timeout="50m"), rapid_job("function", "^TestC14StatusFunction$", 40000, shards=4), rapid_job("queue", "^TestC14Queue$", 6000, shards=6, timeout="50m"), rapid_job("known", "^TestC14Known", 1)]},
+    "quick": {"jobs": [rapid_job("sm", "^TestC14SM$", 500, shards=4), rapid_job("function", "^TestC14StatusFunction$", 3000, shards=2), rapid_job("queue", "^TestC14Queue$", 400, shards=2), rapid_job("known", "^TestC14Known", 1), rapid_job("paused-canary", "^TestC14PausedCanary$", 1)]},
+    "thorough": {"jobs": [rapid_job("sm", "^TestC14SM$", 2500, shards=12, timeout="50m"), rapid_job("function", "^TestC14StatusFunction$", 40000, shards=4), rapid_job("queue", "^TestC14Queue$", 6000, shards=6, timeout="50m"), rapid_job("known", "^TestC14Known", 1), rapid_job("paused-canary", "^TestC14PausedCanary$", 1)]},
 }
 
 PROPS["C03"]["quick"]["jobs"].append(rapid_job("sm", "^TestC09SM$", 60, shards=2))
@@ -174,8 +174,8 @@ PROPS["C16"] = {
     "level_text": "Strategies are drawn from the boundary lattice of every field (absent, 0, negative, 1, huge, percent, malformed percent, plain string; durations <= 0 and > 0; booleans; validation mode; canary block and sub-blocks present or absent; unusable canary nodeSelector or one that matches no node, anti-affinity keys) for both controller default modes and clusters of three, one or no nodes; the oracle checks Default idempotent and non-mutating, IsDefaulted(Default(x)), every field the reconcilers dereference filled, no user-set value changed (only template.metadata.name cleared), Validate returning and rejecting the three documented cases, and then runs 11 rounds of the real reconcilers (first deployment, template change so the canary paths execute, restarting pods, elapsed time) on a store holding the undefaulted object: errors are fine, a panic is a violation. The thorough tier adds coverage-guided native fuzzing of the serialized strategy (accepted iff it decodes into the typed spec and validationMode is in the CRD enum).",
     "level_note": "The CRD schema constrains only types, the validationMode enum and int-or-string, which is what 'accepted' means here; template content is fixed (one container).",
     "technique": "property-based testing (rapid) over a boundary lattice with round-trip/idempotence oracles and crash detection + native go fuzz of the serialized spec",
-    "quick": {"jobs": [rapid_job("lattice", "^TestC16Lattice$", 1500, shards=4)]},
-    "thorough": {"jobs": [rapid_job("lattice", "^TestC16Lattice$", 12000, shards=12, timeout="50m"), fuzz_job("fuzz-spec", "^FuzzC16Spec$", fuzztime="90s", workers=4)]},
+    "quick": {"jobs": [rapid_job("lattice", "^TestC16Lattice$", 1500, shards=4), rapid_job("all-but-one", "^TestC16AllButOne$", 1, shards=2)]},
+    "thorough": {"jobs": [rapid_job("lattice", "^TestC16Lattice$", 12000, shards=12, timeout="50m"), fuzz_job("fuzz-spec", "^FuzzC16Spec$", fuzztime="90s", workers=4), rapid_job("all-but-one", "^TestC16AllButOne$", 1, shards=4)]},
     "log_violations": True,
 }
 
@@ -216,7 +216,7 @@ PROPS["C11"] = {
     "level_text": "An event-driven job (TestC11Queue: watch events, requeue requests and error back-off only, on the virtual clock) lets one write of the EDS or replica-set controller fail after the first roll-out and demands the failure-free fixpoint within a bound of virtual time - a failure that is swallowed (no error, no requeue, nothing written) shows there. Corpus of ten scenarios (first deployment, rolling update, canary start, promotion by validation and by time, failure and rollback by command / restart storm / timeout, node removal and taint, settings change, migration from a DaemonSet, canary paused / unpaused / validated) played by milestone-driven scripts (canary scenarios with an uneven restart history of the daemon pods, so that the node choice depends on what the selection reads). The failure-free run records the K API calls of the controllers (reads included); a faulted re-run injects, at call k, one of {call rejected with a generic error, call rejected with the API status error typical for the verb (AlreadyExists, Conflict, TooManyRequests, ServerTimeout), call applied but answer lost, process stop before the call, process stop after the call} (fresh controller instances after a stop), then failure-free fair rounds until quiet. Oracle: the safety monitors (eligible/once-per-node creation, availability budget, canary confinement and list growth, promotion rule, ownership, no panic - the five safety properties the statement lists) after every step, and the final canonical state (pods per node with template hash / readiness / labels / resources, EDS status, replica sets) equal to the failure-free run's modulo names and timestamps. Quick: sampled positions, kinds and pairs over generated configurations plus the exhaustive single-fault sweep of four scenarios; thorough: every single position x kind for all ten scenarios (exhaustive for singles of the fixed configuration) and more sampled pairs.",
     "level_note": "Exhaustive for single faults of one fixed configuration per scenario; other configurations and pairs are sampled. A stopped process is modelled as every later call of that reconcile failing, then fresh reconciler instances.",
     "technique": "fault enumeration over the recorded API-call sequence (every index x fault kind) + property-based sampling (rapid) of configurations and fault pairs; differential oracle against the failure-free run",
-    "quick": {"jobs": [rapid_job("sampled", "^TestC11Sampled$", 40, shards=4), rapid_job("singles", "^TestC11Exhaustive$", 1, shards=6, env={"VERIF_SCENARIOS": "rolling-update,failure-rollback,canary-start,pause-unpause-validate"}), rapid_job("queue", "^TestC11Queue$", 240, shards=3)]},
+    "quick": {"jobs": [rapid_job("sampled", "^TestC11Sampled$", 40, shards=4), rapid_job("singles", "^TestC11Exhaustive$", 1, shards=6, env={"VERIF_SCENARIOS": "rolling-update,failure-rollback,canary-start,pause-unpause-validate,settings-change"}), rapid_job("queue", "^TestC11Queue$", 240, shards=3)]},
     "thorough": {"jobs": [rapid_job("sampled", "^TestC11Sampled$", 150, shards=6, timeout="50m"), rapid_job("singles", "^TestC11Exhaustive$", 1, shards=10, timeout="50m"), rapid_job("queue", "^TestC11Queue$", 3000, shards=8, timeout="50m")]},
 }
 
@@ -238,13 +238,13 @@ PROPS["C19"] = {
     "level_text": "Stateful property test whose user actions are the real command bodies (run through build-tagged shims with an injected client): a generated prefix history reaches no canary / canary running / auto-paused / user-paused / failed / mid rolling update, then up to three commands, each followed by fair rounds. Oracle: the store diff before/after a command touches only the documented annotation keys (for `fail`: only the canary replica set's Canary-Failed condition); a command whose precondition is false, or that returns an error, writes nothing; annotation values are the documented ones; within six rounds pause => Canary Paused, unpause => Canary, validate => exactly the replica set that was status.canary.replicaSet when the command ran is active (a later template is not promoted by the old annotation: promotion-rule monitor), fail => rollback. A scenario family covers `canary fail` on a re-used replica set, another runs the real `canary fail` body between the read and the status write of a sync of the canary set, and every sequence of one to four `canary pause` / `canary unpause` command bodies (x closing validate / fail / none x validation mode; 180 configurations) is enumerated on a running canary with the documented annotations and the controller's reading demanded after each command. An event-driven job delivers the commands' writes to the controllers only as watch events through the repository's own wiring (a real controller-runtime manager over fake informers runs the four SetupWithManager functions; scheduling by the virtual-time work queue) and demands the reading within 3 x reconcileFrequency + 2s.",
     "level_note": "Expectations about the controller's interpretation are only demanded when the command acted on the current canary (status.canary matching spec.template) and, for fail, when the canary is not explicitly validated.",
     "technique": "stateful property-based testing (rapid) with real command bodies as actions, store-diff oracle and bounded-rounds interpretation oracle",
-    "quick": {"jobs": [rapid_job("commands", "^TestC19Commands$", 300, shards=4), rapid_job("reused-set", "^TestC19FailReusedSet$", 60), rapid_job("fail-mid-sync", "^TestC19FailMidSync$", 60, requires="verif_plugin"), rapid_job("sequences", "^TestC19CanarySequences$", 1, shards=4, requires="verif_plugin"), rapid_job("queue", "^TestC19Queue$", 200, shards=2, requires="verif_plugin")]},
-    "thorough": {"jobs": [rapid_job("commands", "^TestC19Commands$", 2500, shards=15, timeout="50m"), rapid_job("reused-set", "^TestC19FailReusedSet$", 400), rapid_job("fail-mid-sync", "^TestC19FailMidSync$", 500, requires="verif_plugin"), rapid_job("sequences", "^TestC19CanarySequences$", 1, shards=4, requires="verif_plugin"), rapid_job("queue", "^TestC19Queue$", 3000, shards=6, timeout="50m", requires="verif_plugin")]},
+    "quick": {"jobs": [rapid_job("commands", "^TestC19Commands$", 300, shards=4), rapid_job("reused-set", "^TestC19FailReusedSet$", 60), rapid_job("fail-mid-sync", "^TestC19FailMidSync$", 60, requires="verif_plugin"), rapid_job("sequences", "^TestC19CanarySequences$", 1, shards=4, requires="verif_plugin"), rapid_job("queue", "^TestC19Queue$", 200, shards=2, requires="verif_plugin"), rapid_job("validate-superseded", "^TestC19ValidateSuperseded$", 1, requires="verif_plugin")]},
+    "thorough": {"jobs": [rapid_job("commands", "^TestC19Commands$", 2500, shards=15, timeout="50m"), rapid_job("reused-set", "^TestC19FailReusedSet$", 400), rapid_job("fail-mid-sync", "^TestC19FailMidSync$", 500, requires="verif_plugin"), rapid_job("sequences", "^TestC19CanarySequences$", 1, shards=4, requires="verif_plugin"), rapid_job("queue", "^TestC19Queue$", 3000, shards=6, timeout="50m", requires="verif_plugin"), rapid_job("validate-superseded", "^TestC19ValidateSuperseded$", 1, requires="verif_plugin")]},
 }
 
 NOT_APPLICABLE = {}
 
 # Replay tier: the shrunk failing case of every fixed defect as a plain deterministic check.
-for _p in ("C03", "C05", "C06", "C10", "C15", "C16", "C18", "C20"):
+for _p in ("C03", "C05", "C06", "C10", "C12", "C15", "C16", "C18", "C20"):
     for _t in ("quick", "thorough"):
         PROPS[_p][_t]["jobs"].append(rapid_job("regress", "^TestRegress%s$" % _p, 1))
